@@ -314,6 +314,90 @@ class RemoveComponent(FnContract):
             P.check(qn + "/ensures:no-hub-no-message", not st.events)
 
 
+
+class AddComponent(FnContract):
+    """registration and announcement of a new attribute"""
+    property_ids = ('C17',)
+    target = DATA + ":Data.add_component"
+    title = ("an incompatible component is refused with nothing changed; otherwise the component is stored under the given identifier, or under a new identifier "
+             "made from the given name (also when the name is already in use), every other attribute is untouched, and the addition of an identifier that was "
+             "not present is announced (add message naming it, then components-changed) iff there is a hub; re-assigning a present identifier is silent")
+
+    def configs(self, tier):
+        return [dict(label=l, hub=h, compatible=c) for l in ('name-fresh', 'name-in-use', 'id-new', 'id-present') for h in (True, False) for c in (True, False)]
+
+    def inputs(self, cfg, P):
+        events = []
+        hub = PObj('Hub', methods={'broadcast': lambda I, s, m: events.append(m), '__bool__': lambda I, s: True}) if cfg['hub'] else None
+        old = [PObj('ComponentID', fields={'label': 'x', 'parent': 'DATA'}), PObj('ComponentID', fields={'label': 'y', 'parent': 'DATA'})]
+        comps = {c: PObj('Component', fields={'__bases__': ('Component',), 'tag': 'old-%s' % c.fields['label']}) for c in old}
+        d = PObj('Data', fields={'_components': comps, 'hub': hub, '_shape': PObj('shape', fields={'desc': 'shape'})})
+        d.methods['_check_can_add'] = lambda I, s, c: cfg['compatible']
+        d.methods['shape'] = ('__property__', lambda I, s: s.fields['_shape'])
+        d.methods['_create_pixel_and_world_components'] = lambda I, s, **k: events.append('created-coordinates')
+        ids = PObj('ComponentIDList')
+        ids.methods['__contains__'] = lambda I, s, x: (any(k.fields['label'] == x for k in d.fields['_components']) if isinstance(x, str) else any(k is x for k in d.fields['_components']))
+        d.methods['component_ids'] = lambda I, s: ids
+        d.methods['find_component_id'] = lambda I, s, x: next((k for k in d.fields['_components'] if k.fields['label'] == x), None)
+        comp = PObj('Component', fields={'__bases__': ('Component',), 'tag': 'new', 'shape': d.fields['_shape'], 'ndim': 1})
+        label = {'name-fresh': 'z', 'name-in-use': 'x', 'id-new': PObj('ComponentID', fields={'label': 'w', 'parent': None}), 'id-present': old[1]}[cfg['label']]
+        st = St(d=d, old=old, comps0=dict(comps), comp=comp, label=label, events=events, made=[])
+        return Inputs([d, comp, label], st=st)
+
+    def globals_(self, cfg, st):
+        def b_isinstance(I, v, t):
+            ts = t if isinstance(t, tuple) else (t,)
+
+            def nm(x):
+                return x.fields.get('name') if isinstance(x, PObj) else getattr(x, 'name', None)
+            return any(isinstance(v, PObj) and (v.cls == nm(x) or nm(x) in v.fields.get('__bases__', ())) for x in ts)
+
+        def mk_cid(I, label, parent=None):
+            c = PObj('ComponentID', fields={'label': label, 'parent': parent})
+            st.made.append(c)
+            return c
+
+        def msg(kind):
+            return Builtin(kind, lambda I, sender, cid=None: PObj(kind, fields={'sender': sender, 'cid': cid}))
+        g = {'isinstance': Builtin('isinstance', b_isinstance), 'ComponentLink': PType('ComponentLink'), 'Component': PType('Component'),
+             'DerivedComponent': PType('DerivedComponent'), 'ComponentID': PType('ComponentID'),
+             'DataAddComponentMessage': msg('DataAddComponentMessage'), 'ComponentsChangedMessage': msg('ComponentsChangedMessage')}
+        # ComponentID is both a class (isinstance) and a constructor
+        g['ComponentID'] = PObj('class', fields={'name': 'ComponentID'}, methods={'__call__': lambda I, self_, *a, **k: mk_cid(I, *a, **k)})
+        return g
+
+    raises = {'ValueError': lambda cfg, st: not cfg['compatible']}
+
+    def finish(self, cfg, st, P, outcome):
+        qn = "Data.add_component[%s]" % self.cfg_name(cfg)
+        comps = st.d.fields['_components']
+        kinds = [e.cls if isinstance(e, PObj) else e for e in st.events]
+        if outcome[0] == 'raise':
+            P.check(qn + "/raises:refused-component-changes-nothing", len(comps) == 2 and all(comps[k] is v for k, v in st.comps0.items()) and not kinds)
+            return
+        P.check(qn + "/ensures:compatible", cfg['compatible'])
+        cid = outcome[1]
+        ok = isinstance(cid, PObj) and cid.cls == 'ComponentID'
+        P.check(qn + "/ensures:returns-an-identifier", ok)
+        if not ok:
+            return
+        P.check(qn + "/ensures:component-stored-under-the-returned-identifier", any(k is cid for k in comps) and comps[cid] is st.comp)
+        was_present = any(cid is k for k in st.comps0)
+        if cfg['label'] in ('name-fresh', 'name-in-use'):
+            P.check(qn + "/ensures:a-name-makes-a-new-identifier-with-that-name-owned-by-the-dataset",
+                    (not was_present) and cid.fields['label'] == st.label and cid.fields['parent'] is st.d)
+        else:
+            P.check(qn + "/ensures:a-given-identifier-is-used-as-is", cid is st.label and (cid.fields['parent'] is st.d or cfg['label'] == 'id-present'))
+        P.check(qn + "/ensures:number-of-attributes", len(comps) == (2 if was_present else 3))
+        P.check(qn + "/frame:other-attributes-untouched", all(any(k is k0 for k in comps) and (comps[k0] is v or k0 is cid) for k0, v in st.comps0.items()))
+        if cfg['hub'] and not was_present:
+            ms = [e for e in st.events if isinstance(e, PObj)]
+            P.check(qn + "/ensures:addition-announced(add-message-naming-it-then-components-changed)",
+                    [m.cls for m in ms] == ['DataAddComponentMessage', 'ComponentsChangedMessage'] and ms[0].fields['cid'] is cid and all(m.fields['sender'] is st.d for m in ms))
+        else:
+            P.check(qn + "/ensures:nothing-announced", not [e for e in st.events if isinstance(e, PObj)])
+
+
 class _SymMembers(PObj):
     """a list of identifiers with symbolic membership (result of link.get_from_ids())"""
 
@@ -325,4 +409,4 @@ class _SymMembers(PObj):
         self.methods['__iter__'] = lambda I, s: PList([u for u, f in zip(universe, flags) if I.path.branch(f)])
 
 
-CONTRACTS = [FindComponentID(), UpdateID(), ReorderComponents(), RemoveComponent()]
+CONTRACTS = [FindComponentID(), UpdateID(), ReorderComponents(), RemoveComponent(), AddComponent()]
